@@ -34,6 +34,8 @@ class FileRefs(ast.NodeVisitor):
         self.star = []
         self._guard = 0
         self.bound = set()    # names rebound locally (params, assignments): chains on them skipped
+        self.assigned = {}    # "name" / "self.attr" -> list of callee paths (tuple) or None for any other value
+        self.attr_uses = []   # (target key, first attribute, line): attribute of a value bound to a name / self.attr
 
     def resolve_relative(self, module, level):
         if level == 0:
@@ -108,7 +110,100 @@ class FileRefs(ast.NodeVisitor):
             # attribute of a value of statically unknown type: only its names are recorded
             for a in chain:
                 self.methods.append((a, node.lineno))
+            # ... unless the value is a name / self.attr that is only ever bound to an instance of one library class
+            # (resolved in typed_refs): the FIRST attribute taken of it is then a reference into that class
+            rev = list(reversed(chain))
+            if isinstance(cur, ast.Name) and cur.id == "self" and len(rev) >= 2:
+                self.attr_uses.append(("self." + rev[0], rev[1], node.lineno))
+            elif isinstance(cur, ast.Name) and cur.id != "self":
+                self.attr_uses.append((cur.id, rev[0], node.lineno))
             self.visit(cur)
+
+    @staticmethod
+    def _key(t):
+        if isinstance(t, ast.Name):
+            return t.id
+        if isinstance(t, ast.Attribute) and isinstance(t.value, ast.Name) and t.value.id == "self":
+            return "self." + t.attr
+        return None
+
+    def _callee(self, v):
+        """Dotted library path of the callee when `v` is a call of an imported name, else None."""
+        if isinstance(v, ast.Call):
+            chain, cur = [], v.func
+            while isinstance(cur, ast.Attribute):
+                chain.append(cur.attr)
+                cur = cur.value
+            if isinstance(cur, ast.Name) and cur.id in self.alias:
+                return self.alias[cur.id] + tuple(reversed(chain))
+        return None
+
+    def _bind(self, target, value):
+        if isinstance(target, (ast.Tuple, ast.List)):
+            for e in target.elts:
+                self._bind(e, None)
+            return
+        k = self._key(target)
+        if k is None:
+            return
+        if isinstance(value, ast.Constant) and value.value is None:
+            return                                   # "not set yet" placeholder
+        self.assigned.setdefault(k, []).append(self._callee(value) if value is not None else None)
+
+    def visit_Assign(self, node):
+        for t in node.targets:
+            self._bind(t, node.value)
+        self.generic_visit(node)
+
+    def visit_AugAssign(self, node):
+        self._bind(node.target, None)
+        self.generic_visit(node)
+
+    def visit_AnnAssign(self, node):
+        self._bind(node.target, node.value)
+        self.generic_visit(node)
+
+    def visit_For(self, node):
+        self._bind(node.target, None)
+        self.generic_visit(node)
+
+    def visit_With(self, node):
+        for it in node.items:
+            if it.optional_vars is not None:
+                self._bind(it.optional_vars, it.context_expr)
+        self.generic_visit(node)
+
+    def visit_FunctionDef(self, node):
+        a = node.args
+        for arg in a.posonlyargs + a.args + a.kwonlyargs + ([a.vararg] if a.vararg else []) + ([a.kwarg] if a.kwarg else []):
+            if arg.arg != "self":
+                self.assigned.setdefault(arg.arg, []).append(None)     # parameters: unknown type
+        self.generic_visit(node)
+
+    def typed_refs(self, typed_roots=("h5py",)):
+        """References into library CLASSES made through instances: `x = h5py.File(...)` ... `x.fid`.
+        Only names / self attributes whose every binding in this file is a call of the same class of a library in
+        `typed_roots` (h5py: its object API is defined on the classes) are typed; the class must exist in the
+        installed library (else the module-level reference is already reported)."""
+        out = []
+        for k, callees in self.assigned.items():
+            if not callees or any(c is None for c in callees) or len(set(callees)) != 1:
+                continue
+            parts = callees[0]
+            if parts[0] not in typed_roots:
+                continue
+            try:
+                obj = importlib.import_module(parts[0])
+                for p_ in parts[1:]:
+                    obj = getattr(obj, p_)
+            except Exception:
+                continue
+            if not isinstance(obj, type):
+                continue
+            for key, attr, line in self.attr_uses:
+                if key == k:
+                    out.append((parts + (attr,), line))
+        return out
 
     def visit_Name(self, node):
         if node.id in self.alias and isinstance(node.ctx, ast.Load):
@@ -231,7 +326,7 @@ def main(repo, out_v, out_json):
     for mod, (f, rel, is_pkg) in sorted(modfile.items()):
         fr = FileRefs(rel, mod, is_pkg)
         fr.visit(ast.parse(open(f).read()))
-        for parts, line in fr.refs:
+        for parts, line in fr.refs + fr.typed_refs():
             refs.setdefault(parts, "%s:%d" % (rel, line))
         for m, line, guarded in fr.imports:
             top = m.split(".")[0]
